@@ -13,5 +13,6 @@ bin/instrument -repo "$REPO" -out "$SCRATCH/ov" -add "$(pwd)/overlay_add"
 sed "s#=> /repo#=> $REPO#" go.mod > "$SCRATCH/go.mod"; : > "$SCRATCH/go.sum"
 for g in harness/*/; do
   go build -overlay "$SCRATCH/ov/overlay.json" -modfile "$SCRATCH/go.mod" -o "$SCRATCH/h" ./$g
+  go build -race -overlay "$SCRATCH/ov/overlay.json" -modfile "$SCRATCH/go.mod" -o "$SCRATCH/h" ./$g
 done
 echo "setup ok"
